@@ -37,7 +37,10 @@ def run(chk):
         tid += 1
     sw, res = chk.generate(sweep.c13_sweep_task, tasks)
     chk.extra['sweep_results_judged'] = sum(r['events'] for r in res)
+    sh_stream = common.stage_histories(chk, ntraces=32 if q else 1500, steps=10 if q else 40,
+                                       nvars_choices=[3, 4, 4], profile='stream', tag='st')
     chk.validate('TraceSweep', 'TraceSweep.cfg', sw)
+    chk.validate('TraceBDD', 'TraceBDD.cfg', sh_stream)
     common.sweep_canary(chk, sw[0], 'row.preimage', 'rel.preimage')
     chk.exhaustive = True
     chk.assumptions = ['TLC + Json reader; adapter', '1 pair exhaustive; 2 pairs sampled; 3 pairs not covered']
